@@ -1,8 +1,297 @@
-/- driver component stub: replaced by the real component when its model exists -/
+/- driver component `snapshot`: the snapshot protocol model on scripted histories (C19) -/
 import TakVerif.Driver.Ser
+import TakVerif.Model.Snapshot
 
 namespace Tak.Driver.Snapshot
+open Tak.Snapshot
 
-def handle : List String → Option String := fun _ => none
+/-! ### text forms -/
+
+def pad6 (n : Nat) : String :=
+  let s := toString n
+  String.ofList (List.replicate (6 - s.length) '0') ++ s
+
+def showName : Name → String
+  | .step n => s!"step_{pad6 n}"
+  | .stepTmp n => s!"step_{pad6 n}.tmp"
+  | .latest => "latest"
+  | .latestTmp => "latest.tmp"
+  | .saveNow => "SAVE_NOW"
+
+def parseName (s : String) : Option Name :=
+  if s == "latest" then some .latest
+  else if s == "latest.tmp" then some .latestTmp
+  else if s == "SAVE_NOW" then some .saveNow
+  else if s.startsWith "step_" then
+    let rest := (s.drop 5).toString
+    if rest.endsWith ".tmp" then
+      ((rest.dropEnd 4).toString.toNat?).map Name.stepTmp
+    else rest.toNat?.map Name.step
+  else none
+
+def showFName : FName → String
+  | .model => "model.pt"
+  | .config => "config.yaml"
+  | .opt => "opt.pt"
+  | .replay => "replay_buffer.pt"
+  | .elapsed => "elapsed.yaml"
+
+def fnameOfLetter : Char → Option FName
+  | 'm' => some .model
+  | 'c' => some .config
+  | 'o' => some .opt
+  | 'r' => some .replay
+  | 'e' => some .elapsed
+  | _ => none
+
+def showOp : Op → String
+  | .mkdir d => s!"mkdir:{showName d}"
+  | .create d f => s!"create:{showName d}/{showFName f}"
+  | .finish d f _ => s!"finish:{showName d}/{showFName f}"
+  | .unlinkIn d f => s!"unlinkin:{showName d}/{showFName f}"
+  | .rmdir d => s!"rmdir:{showName d}"
+  | .rename a b => s!"rename:{showName a}:{showName b}"
+  | .unlink a _ => s!"unlink:{showName a}"
+  | .symlink t a => s!"symlink:{showName t}:{showName a}"
+
+/-- the train state the harness calls `<id>` at step `<step>` (tensors are abstract) -/
+def mkState (id step : Nat) : TrainState := ⟨[id], [id], [[id]], ⟨step, id, id⟩⟩
+
+def stateId (s : TrainState) : String :=
+  match s.params, s.opt, s.replay with
+  | [a], [b], [[c]] =>
+    if a == b && b == c && c == s.elapsed.positions && c == s.elapsed.epoch then
+      s!"{a}:{s.elapsed.step}" else "mixed"
+  | _, _, _ => "mixed"
+
+def showOutcome : Outcome → String
+  | .fresh => "fresh"
+  | .error => "error"
+  | .loaded s => s!"loaded:{stateId s}"
+
+def contentTag : Content → String
+  | .params [a] => s!"s{a}"
+  | .opt [a] => s!"s{a}"
+  | .replay [[a]] => s!"s{a}"
+  | .elapsed e => s!"s{e.positions}"
+  | .cfg => "cfg"
+  | _ => "?"
+
+def showFile : FName × File → String
+  | (f, .part) => s!"{showFName f}=p"
+  | (f, .full c) => s!"{showFName f}={contentTag c}"
+
+def showNode : Name × Node → String
+  | (n, .dir es) => s!"{showName n}" ++ "{" ++ ",".intercalate (es.map showFile) ++ "}"
+  | (n, .link t) => s!"{showName n}->{showName t}"
+  | (n, .flag) => s!"{showName n}"
+
+def showFS (fs : FS) : String := if fs.isEmpty then "-" else ";".intercalate (fs.map showNode)
+
+/-! ### scripts -/
+
+inductive Proto | repaired | pinned | drafted
+
+def parseProto : String → Option Proto
+  | "repaired" => some .repaired
+  | "pinned" => some .pinned
+  | "drafted" => some .drafted
+  | _ => none
+
+def parseTrigger (s : String) : Option Trigger :=
+  if s == "run" then some .afterRun
+  else if s.startsWith "step" then (s.drop 4).toString.toNat?.map Trigger.afterStep
+  else none
+
+/-- the pinned / drafted hooks differ from the repaired one only in `save_snapshot` -/
+def hookOpsP (p : Proto) (t : Trigger) (ord : Name → List FName) (s : TrainState) (fs : FS) :
+    List Op :=
+  let save : List Op :=
+    match p with
+    | .repaired => saveOps ord s fs
+    | .pinned => saveOpsPinned s
+    | .drafted => saveOpsDrafted ord s fs
+  match t with
+  | .afterRun => save
+  | .afterStep freq =>
+    if freq = 0 then []
+    else if s.elapsed.step % freq = 0 then save
+    else if (get fs .saveNow).isSome then .unlink .saveNow true :: save
+    else []
+
+/-- does the system call behind the operation succeed (a failing call leaves no trace in the
+    harness's abstraction of the observed system calls) -/
+def succeeds (op : Op) (fs : FS) : Bool :=
+  match op.run fs with
+  | none => false
+  | some _ =>
+    match op with
+    | .mkdir d => (get fs d).isNone
+    | .unlinkIn d f =>
+      (match get fs d with
+       | some (.dir es) => (get es f).isSome
+       | _ => false)
+    | .rmdir d =>
+      (match get fs d with
+       | some (.dir []) => true
+       | _ => false)
+    | .unlink a _ => (get fs a).isSome
+    | _ => true
+
+/-- all states reachable by crash prefixes, one per SUCCESSFUL operation, with that operation;
+    stops at an operation that raises -/
+def trace : List Op → FS → List (Op × FS)
+  | [], _ => []
+  | op :: r, fs =>
+    match op.run fs with
+    | none => []
+    | some fs' => if succeeds op fs then (op, fs') :: trace r fs' else trace r fs'
+
+inductive Ev
+  | touch
+  | save (t : Trigger) (s : TrainState)
+  | crash (t : Trigger) (s : TrainState) (e : Nat)
+  | enum (t : Trigger) (s : TrainState)
+
+def parseEv (tok : String) : Option Ev :=
+  match tok.splitOn ":" with
+  | ["T"] => some .touch
+  | ["S", t, id, step] => do pure (.save (← parseTrigger t) (mkState (← id.toNat?) (← step.toNat?)))
+  | ["E", t, id, step] => do pure (.enum (← parseTrigger t) (mkState (← id.toNat?) (← step.toNat?)))
+  | ["C", t, id, step, e] => do
+    pure (.crash (← parseTrigger t) (mkState (← id.toNat?) (← step.toNat?)) (← e.toNat?))
+  | _ => none
+
+/-- `ord=<letters>` (default scan order) and `ord@<name>=<letters>` (for one directory) -/
+structure OrdSpec where
+  dflt : List FName
+  per : List (Name × List FName)
+
+def OrdSpec.fn (o : OrdSpec) : Name → List FName := fun n => (get o.per n).getD o.dflt
+
+def parseLetters (s : String) : Option (List FName) := s.toList.mapM fnameOfLetter
+
+def parseOrdTok (o : OrdSpec) (tok : String) : Option OrdSpec :=
+  match tok.splitOn "=" with
+  | ["ord", ls] => do pure { o with dflt := ← parseLetters ls }
+  | [k, ls] =>
+    if k.startsWith "ord@" then do
+      let n ← parseName (k.drop 4).toString
+      pure { o with per := (n, ← parseLetters ls) :: o.per }
+    else none
+  | _ => none
+
+structure Acc where
+  fs : FS := []
+  steps : List (Op × FS) := []      -- successful operations of the enumerated hook calls
+  marks : List Nat := []            -- number of successful operations at the end of each of them
+  saved : List TrainState := []
+
+def runEv (p : Proto) (ord : Name → List FName) (a : Acc) : Ev → Acc
+  | .touch => { a with fs := put a.fs .saveNow .flag }
+  | .save t s => { a with fs := runAll (hookOpsP p t ord s a.fs) a.fs }
+  | .crash t s e =>
+    let tr := trace (hookOpsP p t ord s a.fs) a.fs
+    { a with fs := match (tr.take e).getLast? with
+                   | some (_, fs') => fs'
+                   | none => a.fs }
+  | .enum t s =>
+    let tr := trace (hookOpsP p t ord s a.fs) a.fs
+    let fs' := match tr.getLast? with
+               | some (_, fs') => fs'
+               | none => a.fs
+    { fs := fs', steps := a.steps ++ tr, marks := a.marks ++ [a.steps.length + tr.length],
+      saved := a.saved ++ [s] }
+
+structure Parsed where
+  proto : Proto
+  pre : List (OrdSpec × Ev)
+  enums : List (OrdSpec × Ev)
+
+def isEnum : Ev → Bool
+  | .enum _ _ => true
+  | _ => false
+
+/-- tokens in order; an `ord…` token sets the scan order for the events that follow it -/
+def parseToks : OrdSpec → List String → Option (List (OrdSpec × Ev))
+  | _, [] => some []
+  | o, t :: r =>
+    if t.startsWith "ord" then do
+      let o' ← parseOrdTok o t
+      parseToks o' r
+    else do
+      let e ← parseEv t
+      let rest ← parseToks o r
+      pure ((o, e) :: rest)
+
+def parseScript (toks : List String) : Option Parsed := do
+  let (ptok, rest) ← match toks with
+    | p :: r => some (p, r)
+    | [] => none
+  let proto ← parseProto ptok
+  let evs ← parseToks { dflt := [], per := [] } rest
+  let pre := evs.takeWhile (fun e => !isEnum e.2)
+  let enums := evs.dropWhile (fun e => !isEnum e.2)
+  if enums.all (fun e => isEnum e.2 || (match e.2 with | .touch => true | _ => false)) then
+    pure { proto, pre, enums }
+  else none
+
+/-- (state before the enumerated part, accumulated enumeration) -/
+def evalScript (p : Parsed) : FS × Acc :=
+  let step := fun (a : Acc) (oe : OrdSpec × Ev) => runEv p.proto oe.1.fn a oe.2
+  let a0 := p.pre.foldl step {}
+  (a0.fs, p.enums.foldl step { fs := a0.fs })
+
+/-- the conclusion of `C19_crash_consistent` / `C19_roundtrip` as a check on OBSERVED outcomes:
+    `prev` = what the directory resumed before this hook call, `new` = the state being saved,
+    `done` = the call ran to its end -/
+def verdict (prev : Outcome) (new : TrainState) (done : Bool) (obs : Outcome) : String :=
+  if obs = .error then "partial-snapshot-live"
+  else if obs = .loaded new then "ok"
+  else if done then "roundtrip-mismatch"
+  else if obs = prev then "ok"
+  else if obs = .fresh then "resume-fresh-after-crash"
+  else "roundtrip-mismatch"
+
+def parseOutcome (s : String) : Option Outcome :=
+  match s.splitOn ":" with
+  | ["fresh"] => some .fresh
+  | ["error"] => some .error
+  | ["loaded", id, step] => do pure (.loaded (mkState (← id.toNat?) (← step.toNat?)))
+  | ["loaded", "mixed"] => some (.loaded ⟨[], [], [], ⟨0, 0, 0⟩⟩)
+  | _ => none
+
+/-- ops:
+  `ops <proto> [ord…] <events…>`      → successful operations of the enumerated (`E:`) hook calls
+  `predict <proto> [ord…] <events…>`  → resume outcome after each crash prefix (0..n successful ops)
+  `fsafter <proto> [ord…] <events…>`  → run directory after each crash prefix
+  `verdict <prev> <id> <step> <done:0|1> <observed>` → `ok` | failure key
+  `window <k> <n>`                    → replay buffer after pushing batches 0..n-1
+  events: `T` | `S:<trig>:<id>:<step>` | `C:<trig>:<id>:<step>:<e>` | `E:<trig>:<id>:<step>`,
+  `<trig>` = `run` | `step<freq>`
+-/
+def handle : List String → Option String
+  | "ops" :: rest => do
+    let p ← parseScript rest
+    let (_, a) := evalScript p
+    pure (s!"n={a.steps.length} marks={",".intercalate (a.marks.map toString)} ops="
+      ++ " ".intercalate (a.steps.map (fun x => showOp x.1)))
+  | "predict" :: rest => do
+    let p ← parseScript rest
+    let (fs0, a) := evalScript p
+    pure (" ".intercalate ((fs0 :: a.steps.map (·.2)).map (fun fs => showOutcome (resume fs))))
+  | "fsafter" :: rest => do
+    let p ← parseScript rest
+    let (fs0, a) := evalScript p
+    pure (" ".intercalate ((fs0 :: a.steps.map (·.2)).map showFS))
+  | ["verdict", prev, id, step, done, obs] => do
+    let prev ← parseOutcome prev
+    let obs ← parseOutcome obs
+    pure (verdict prev (mkState (← id.toNat?) (← step.toNat?)) (done == "1") obs)
+  | ["window", k, n] => do
+    let k ← k.toNat?
+    let n ← n.toNat?
+    pure (",".intercalate ((pushes k [] (List.range n)).map toString))
+  | _ => none
 
 end Tak.Driver.Snapshot
